@@ -486,27 +486,16 @@ func r034(c *Ctx) {
 	const rule = "R03.4 drain-cutoff-is-504"
 	c.floor(rule, 2)
 	hpe := c.method("Target", "handleProxyError")
-	isDr := c.method("Target", "isDraining")
-	errDraining := c.global(c.server, "ErrorDraining")
-	// isDraining tests errors.Is(err, ErrorDraining)
-	ok := false
-	for _, cs := range callsToName(isDr, "errors.Is") {
-		if isLoadOfGlobal(cs.common().Args[1], errDraining) && cs.common().Args[0] == ssa.Value(isDr.Params[1]) {
-			for _, ret := range normalReturns(isDr) {
-				if retVal(ret, 0) == cs.instr.(ssa.Value) {
-					ok = true
-				}
-			}
-		}
-	}
-	c.ob(rule, "isDraining/tests-ErrorDraining", isDr.Pos(), ok, true, "isDraining must be errors.Is(err, ErrorDraining)")
+	// (isDraining is de-anchored: expanded into handleProxyError) the test is errors.Is(err, ErrorDraining)
+	drainingTest := c.proxyErrorPredicates(hpe)["draining"]
+	c.ob(rule, "isDraining/tests-ErrorDraining", hpe.Pos(), drainingTest != nil, true, "the drain cause must be recognised by errors.Is(err, ErrorDraining)")
 	n := 0
 	for _, s := range c.errorSites() {
 		if s.fn != hpe {
 			continue
 		}
-		for _, ce := range dominatingConds(s.instr.Block()) {
-			if call, ok := ce.cond.(*ssa.Call); ok && isCallTo(call.Common(), isDr) && ce.taken {
+		if drainingTest != nil {
+			if t, _ := boolFacts(s.instr, sameAs(drainingTest)); t {
 				n++
 				c.ob(rule, "handleProxyError/draining->504", s.instr.Pos(), s.known && s.status == 504, true, "a request cancelled by a drain must be answered 504")
 			}
